@@ -104,6 +104,7 @@ def run(ctx):
     rng = ctx.rng
     n = ctx.n(700, 100000)
     sweep = [p_ for p_ in range(0, 70) for _ in range(6)] if ctx.shard == 0 else []
+    pool = {}
     for i in range(n + len(sweep)):
         ik = rng.choice(KINDS)
         sk = rng.choice(KINDS)
@@ -118,7 +119,17 @@ def run(ctx):
         locator = gen.simple_name(rng, 1, 3) + [rc.comp(8, b'KEY'), rc.comp(8, b'\x01'), rc.comp(8, b'self'), rc.comp(0x36, b'\x01')]
         if i >= n:
             locator = [rc.comp(8, b'i'), rc.comp(8, b'KEY'), rc.comp(8, b'\x01')]
-        signer, sinfo = pkts.make_signer(rng, ik, locator)
+        if i < n and pool.get(ik) and rng.random() < 0.4:
+            # one signer object issuing several certificates; its configured key locator is changed in between
+            signer, sinfo = pool[ik]
+            sinfo = dict(sinfo, key_name=locator)
+            signer.key_locator_name = rng.choice([locator, [bytes(c) for c in locator], rc.name_to_uri(locator, canonical=True)])
+            pool[ik] = (signer, sinfo)
+            ctx.event('signer-reused-with-new-locator')
+        else:
+            signer, sinfo = pkts.make_signer(rng, ik, locator)
+            if i < n:
+                pool[ik] = (signer, sinfo)
         _, subj = pkts.make_signer(rng, sk, key_name)
         pub = subj['pub'] if rng.random() < 0.9 else gen.rand_bytes(rng, rng.choice([0, 1, 91, 300]))
         form, fl = pkts.name_form(rng, key_name)
@@ -141,7 +152,7 @@ def run(ctx):
                     issuer, icomp = txt, rc.comp_from_uri(txt)
                 else:
                     icomp = gen.component(rng, gen.BORING_TYPES)
-                    issuer = rng.choice([bytes(icomp), bytearray(icomp)])
+                    issuer = rng.choice([bytes(icomp), bytearray(icomp), memoryview(bytes(icomp))])   # a component of a parsed name is a memoryview
                 w.update(start=str(st), dur=dur, issuer=issuer if isinstance(issuer, str) else bytes(issuer).hex())
                 rn, wire = derive_cert(form, issuer, pub, signer, st, dur)
                 nb, na = fmt(start), fmt(start + datetime.timedelta(seconds=dur))
@@ -190,5 +201,6 @@ def run(ctx):
     ctx.extra['ecdsa256_der_lengths_seen'] = sorted(int(k.rsplit('-', 1)[1]) for k in seen)
     ctx.need_class_prefix('siglen-ecdsa256-', 2)
     ctx.need_event('cert-checked')
+    ctx.need_event('signer-reused-with-new-locator')
     ctx.assumptions = ['self_sign/sign_req read the real clock (datetime.now is not patchable): their instants are checked within 5 s',
                        'non-UTC aware datetimes and years < 1000 are outside the generated domain']
